@@ -181,6 +181,22 @@ def rule_gate(r):
         r.check(inside and after, KP, "_loops", pf.unparse(s), s.lineno, "inside the cutoff gate and after the NaN test")
     if len(augs) < 5:
         raise AnalysisError("_loops: only %d accumulations found" % len(augs))
+    # the mesh-position bookkeeping runs on every iteration, whatever the gate decides (the C kernel's ++i0 / ++step)
+    loops = [s for s in cfg.stmts() if isinstance(s, ast.For) and "num_eval" in pf.unparse(s.iter)]
+    if not loops:
+        raise AnalysisError("_loops: mesh loop not found")
+    L = loops[0]
+    steps = [s for s in pf.walk_stmts(ast.Module(body=L.body, type_ignores=[])) if isinstance(s, ast.AugAssign)
+             and isinstance(s.op, ast.Add) and pf.const_value(s.value) == 1]
+    if not steps:
+        raise AnalysisError("_loops: index increment not found")
+    for s in steps:
+        every = not cfg.reachable_without(L.body[0], L, [s]) if L.body[0] is not s else True
+        r.check(every, KP, "_loops", "%s on every iteration" % pf.unparse(s), s.lineno,
+                "the position in the innermost distribution advances for skipped points too (below the cutoff or invalid), "
+                "as ++i0 does in kernel_iq.c" if every else
+                "a path through the loop body (cutoff miss or the NaN `continue`) skips the increment: later mesh points are "
+                "evaluated at the wrong distribution value")
 
 
 def py_args(r):
@@ -286,7 +302,7 @@ def rule_validate(r):
 RULES = [
     ("R-C09-result-layout", 125, "result layout three ways", make_c_rule("R-C09-result-layout", py_layout)),
     ("R-C09-volume-order", 65, "volume tuple order", make_c_rule("R-C09-volume-order", py_volume)),
-    ("R-C09-gate", 7, "python gate = C gate", rule_gate),
+    ("R-C09-gate", 8, "python gate = C gate", rule_gate),
     ("R-C09-args", 700, "call arguments in table order at every call site of every unit", make_c_rule("R-C09-args", py_args)),
     ("R-C09-validate", 26, "validation raise discipline and reachability", rule_validate),
 ]
